@@ -453,6 +453,25 @@ func VerifC09_CrashRecovery() {
 	r.consistent("at-crash", "2", false)
 	// restart: fresh process state, caches rebuilt from the API server
 	r.newPC()
+	if rt.Tier() == 1 && rt.Bool("second-crash-during-recovery") {
+		// the restarted controller crashes again in its first sync
+		r.markHealthy()
+		r.w.Srv.ArmFault(rt.Choice("second-crash-after-request", 8), env.FaultCrash, "", true)
+		func() {
+			defer func() {
+				if p := recover(); p != nil {
+					if _, ok := p.(env.Crash); !ok {
+						panic(p)
+					}
+					rt.Cover("crashed-twice")
+				}
+			}()
+			_ = r.sync()
+		}()
+		r.w.Srv.DisarmFault()
+		r.consistent("at-second-crash", "2", false)
+		r.newPC()
+	}
 	r.runRollout(K + 1)
 	r.consistent("after-recovery", "2", true)
 
